@@ -245,7 +245,7 @@ func c12Params(c *Ctx) {
 	r := c.R
 	rng := c.RNG.Fork(121)
 	shared := &otp.Param{Digits: 8, Algorithm: otp.SHA256, Period: 0, Skew: 3}
-	for i := 0; i < c.N(3000, 60000); i++ {
+	for i := 0; i < c.N(30000, 600000); i++ {
 		key := rng.Bytes(20)
 		sec := ref.Base32Encode(key)
 		var p *otp.Param
@@ -307,11 +307,15 @@ func snapURL(u *url.URL) urlSnap {
 func c12URLs(c *Ctx) {
 	r := c.R
 	rng := c.RNG.Fork(122)
-	for i := 0; i < c.N(3000, 60000); i++ {
+	for i := 0; i < c.N(30000, 600000); i++ {
 		iss, acc := gen.URLString(rng, false), gen.URLString(rng, true)
 		text := "otpauth://totp/" + url.PathEscape(iss+":"+acc) + "?secret=ABCD&issuer=" + url.QueryEscape(iss) + "&digits=" + fmt.Sprint(rng.Intn(300)) + "&period=" + fmt.Sprint(rng.Intn(100))
 		if i%5 == 0 {
 			text = "otpauth://user:pw@hotp/" + url.PathEscape(iss+":"+acc) + "?secret=ABCD#frag"
+		}
+		if i%7 == 3 {
+			// query shapes real links have: HTML-escaped separators, ';', bad escapes, '+', repeated and empty pairs
+			text = "otpauth://totp/" + url.PathEscape(iss+":"+acc) + "?secret=ABCD" + gen.Pick(rng, []string{"&amp;digits=8", "&amp;amp;period=60", ";digits=8", "&digits=%zz", "&%zz=1", "&digits=6&digits=8", "&&&", "&=", "&issuer=a+b%20c", "&secret=EFGH", "&amp;", "&algorithm=sha256;period=15", "%26amp%3Bdigits=8"}) + gen.Pick(rng, []string{"", "&period=30", "&amp;issuer=x"})
 		}
 		u, err := url.Parse(text)
 		if err != nil {
@@ -391,7 +395,7 @@ func c12Aliasing(c *Ctx) {
 		args = append(args, addrRange{p, p + uintptr(len(s)), what})
 	}
 	var keepStr []string
-	for i := 0; i < c.N(2000, 20000); i++ {
+	for i := 0; i < c.N(10000, 100000); i++ {
 		dec := fmt.Sprint(rng.U64())
 		hx := fmt.Sprintf("%x", rng.Bytes(1+rng.Intn(64)))
 		sec := ref.Base32Encode(rng.Bytes(1 + rng.Intn(64)))
@@ -469,11 +473,8 @@ func c12OCRACases(c *Ctx, emit func(c12OCRACase)) {
 	rng := c.RNG.Fork(12)
 	lens := []int{0, 7, 8, 9, 19, 20, 21, 31, 32, 33, 63, 64, 65, 127, 128, 129}
 	hb := handBuiltSuites(rng, []string{"OCRA-1:c12"})
-	for i, s := range hb {
-		if !c.Thorough && i%3 != 0 {
-			continue
-		}
-		for v := 0; v < c.N(6, 24); v++ {
+	for _, s := range hb {
+		for v := 0; v < c.N(24, 200); v++ {
 			in := admissibleInput(rng, s, rng.Intn(1000))
 			if v%3 == 2 {
 				// arbitrary (possibly inadmissible) lengths around the padding widths, in every field
@@ -494,7 +495,7 @@ func c12OCRACases(c *Ctx, emit func(c12OCRACase)) {
 		if !ok {
 			continue
 		}
-		for v := 0; v < c.N(4, 20); v++ {
+		for v := 0; v < c.N(20, 200); v++ {
 			k := c12OCRACase{Base: ocraCase{KeyHex: hexs([]byte("12345678901234567890")), Secret: "GEZDGNBVGY3TQOJQGEZDGNBVGY3TQOJQ", Via: viaRaw, Suite: ref.Suite{Raw: n}, Input: inputToJ(admissibleInput(rng, m, v))}}
 			for f := 0; f < 5; f++ {
 				k.Shapes[f] = (v + f) % 3
